@@ -356,6 +356,12 @@ class Lane(LaneBase):
                         r = f'nx3.2:{r}/nx3.1:{r2}'
                 lines.append(f'dsep minimal {hn} {he} {hx(x)} {hx(y)} {hxlist(Z)}')
                 impl.append(r)
+                if counter[0] % 3 == 0:
+                    # the transcription of networkx's own marking algorithm (CG.NxMinSep) against the real routine
+                    from harness.lanes.c11_nxmin import nxmin_lines
+                    for ln, exp in nxmin_lines(names, edges, x, y, Z):
+                        lines.append(ln)
+                        impl.append(exp)
                 if inside:
                     want = b01(bf.minimal(x, y, Z))
                     if r != want:
@@ -370,6 +376,15 @@ class Lane(LaneBase):
             if not isinstance(r, str):
                 Zr = sorted(r)
                 adjacent = x == y or (x, y) in bf.E or (y, x) in bf.E
+                # what the CODE returned against the transcription of networkx's algorithm (the returned set does not
+                # depend on node / edge order), and the bare third-party routine against the same transcription
+                lines.append(f'nxmin sep {hn} {he} {hx(x)} {hx(y)}')
+                impl.append(hxlist(Zr))
+                if counter[0] % 2 == 0:
+                    from harness.lanes.c11_nxmin import nxmin_lines
+                    for ln, exp in nxmin_lines(names, edges, x, y):
+                        lines.append(ln)
+                        impl.append(exp)
                 lines.append(f'dsep validsep {hn} {he} {hx(x)} {hx(y)} {hxlist(Zr)}')
                 # for adjacent (or equal) nodes nothing separates, whatever is returned is invalid
                 impl.append('0' if adjacent else '1')
